@@ -98,8 +98,30 @@ pub fn value(v: &ast::Value) -> Result<V, String> {
         ast::ValueKind::ExtensionValue(ev) => {
             let (name, args) = ev.value().canonical_repr().ok_or_else(|| "bridge: extension value without canonical representation".to_string())?;
             let a: Vec<V> = args.iter().map(|r| restricted_to_v(r.as_ref())).collect::<Result<_, _>>()?;
+            // The canonical form is only *read* here. For IPv4-mapped / IPv4-compatible IPv6 addresses cedar formats it with
+            // std's dotted notation (`::ffff:10.0.0.1/128`), a spelling the `ip` constructor itself refuses; read it leniently
+            // (whether that canonical form can be *used* is checked where the library uses it: TPE residuals, C14).
+            if name.to_string() == "ip" {
+                if let [V::Str(s)] = a.as_slice() {
+                    if let Some(ip) = lenient_ip(s) {
+                        return Ok(V::Ip(ip));
+                    }
+                }
+            }
             rm::call_ext(&name.to_string(), &a).map_err(|er| format!("bridge: canonical form {name}(..) of `{v}` does not denote a value in the reference model ({:?})", er.class))
         }
+    }
+}
+
+/// `addr[/prefix]` as std prints it (any notation std accepts)
+fn lenient_ip(s: &str) -> Option<rm::ext::Ip> {
+    let (a, p) = match s.split_once('/') {
+        Some((a, p)) => (a, Some(p.parse::<u8>().ok()?)),
+        None => (s, None),
+    };
+    match a.parse::<std::net::IpAddr>().ok()? {
+        std::net::IpAddr::V4(x) => Some(rm::ext::Ip { v6: false, addr: u32::from(x) as u128, prefix: p.unwrap_or(32) }),
+        std::net::IpAddr::V6(x) => Some(rm::ext::Ip { v6: true, addr: u128::from(x), prefix: p.unwrap_or(128) }),
     }
 }
 
